@@ -8,7 +8,7 @@ EXTRA_PROPS = [("B3.Props.C06T", "B3/Props/C06T.lean"), ("B3.Props.C18", "B3/Pro
 RULE = ("C API histories under every g_cpu_features level: init / init_keyed / init_derive_key / init_derive_key_raw (contexts with "
         "embedded NULs for raw), update splits from the C02 size classes, finalize(out_len) and finalize_seek(seek, out_len) with seeks "
         "from the C03 boundary set and out_len in {0..130, 64j+-1, <=5000}, reset, clone, samelive (finalize leaves the hasher "
-        "unchanged; reset == fresh init; the two derive-key initialisers agree); outputs flush against guard pages; "
+        "unchanged; reset == fresh init; the two derive-key initialisers agree); outputs flush against guard pages; round_down_to_power_of_2 and popcnt of blake3_impl.h at every 2^k-1, 2^k, 2^k+1 (k < 64); "
         "non-trivial = at least two updates or a seek; distinct = distinct script")
 ASSUMPTIONS = ["SIMD kernels satisfy the kernel contract (C05); the dispatcher selects among them by g_cpu_features (forced by the harness)"]
 NOT_PROVED = []
@@ -100,6 +100,15 @@ def stages(tier, seed, witness_search=False):
             for back in [0, 1, 2, 3, 5, 9, 17, 40]:
                 ops.append(f"C finseek a {base - 64 * back + rng.choice([0, 0, 7])} {rng.choice([64 * back + 64, 1100, 2048 + 65, 130])}")
             scripts.append(Script(ops, tags=("seek-boundary", feat)))
+    # the arithmetic helpers of blake3_impl.h on the whole 64-bit domain (an update of >= 2^33 bytes in one call is the only way the
+    # API reaches the upper half): every 2^k - 1, 2^k, 2^k + 1 and random values
+    xs = {0, 1, 2, 3, (1 << 64) - 1}
+    for k in range(1, 64):
+        xs |= {(1 << k) - 1, 1 << k, (1 << k) + 1, (1 << k) + rng.randrange(1 << k)}
+    ar = []
+    for x in sorted(xs):
+        ar += [f"C rdp2 {x}", f"C popcnt {x}"]
+    scripts.append(Script(ar, tags=("arith-helpers",)))
     return [LineStage("c-api", scripts, impl="c"),
             # the same histories against the library built with the C intrinsics kernels behind the dispatcher
             LineStage("c-api-intrinsics", scripts, impl="c_ci")]
